@@ -4,6 +4,9 @@ package main
 //
 //   reader feed <delimNil> <stream> <reads>  => <pushed records> <stable>
 //
+//   reader feedk <delimNil> <stream> <reads> <reject>  => the same with a pusher that keeps every record but
+//            answers "not an item" for the first <reject> records, as the item builder does for --header-lines
+//
 //   <reads>  "/"-joined steps: <n> (return up to n bytes, err=nil), <n>e (…together with io.EOF),
 //            <n>x (…together with another error), 0 = (0, nil) (no progress); after the script the
 //            reader returns the remaining bytes in one read each call, then (0, EOF).
@@ -54,7 +57,7 @@ func (s *scriptedReader) Read(p []byte) (int, error) {
 }
 
 func readerEval(op string, a []string) string {
-	if op != "feed" {
+	if op != "feed" && op != "feedk" {
 		panic("bad op")
 	}
 	var stream []byte
@@ -67,7 +70,13 @@ func readerEval(op string, a []string) string {
 	if a[2] != "_" {
 		steps = strings.Split(a[2], "/")
 	}
-	views, copies := fzf.VerifReaderFeed(&scriptedReader{data: stream, steps: steps}, a[0] == "1")
+	var views, copies [][]byte
+	if op == "feedk" {
+		// the pusher keeps every record but reports the first a[3] as "not an item" (--header-lines)
+		views, copies = fzf.VerifReaderFeedKeep(&scriptedReader{data: stream, steps: steps}, a[0] == "1", atoi(a[3]))
+	} else {
+		views, copies = fzf.VerifReaderFeed(&scriptedReader{data: stream, steps: steps}, a[0] == "1")
+	}
 	stable := 1
 	for i := range views {
 		if !bytes.Equal(views[i], copies[i]) {
@@ -129,7 +138,11 @@ func readerGen(r *rand.Rand, count int, emit func(op string, args ...string)) {
 			if len(steps) > 0 {
 				st = strings.Join(steps, "/")
 			}
-			emit("feed", itoa(b2i(delimNil)), fmt.Sprintf("gen:%d:%d:%d:%d", r.Intn(1000), total, maxRec, delim), st)
+			if r.Intn(3) == 0 {
+				emit("feedk", itoa(b2i(delimNil)), fmt.Sprintf("gen:%d:%d:%d:%d", r.Intn(1000), total, maxRec, delim), st, itoa(1+r.Intn(5)))
+			} else {
+				emit("feed", itoa(b2i(delimNil)), fmt.Sprintf("gen:%d:%d:%d:%d", r.Intn(1000), total, maxRec, delim), st)
+			}
 			continue
 		}
 		var stream []byte
@@ -167,7 +180,12 @@ func readerGen(r *rand.Rand, count int, emit func(op string, args ...string)) {
 		if len(steps) > 0 {
 			st = strings.Join(steps, "/")
 		}
-		emit("feed", itoa(b2i(delimNil)), encBytes(stream), st)
+		if r.Intn(4) == 0 {
+			// header records arriving in reads of their own
+			emit("feedk", itoa(b2i(delimNil)), encBytes(stream), st, itoa(1+r.Intn(3)))
+		} else {
+			emit("feed", itoa(b2i(delimNil)), encBytes(stream), st)
+		}
 	}
 }
 
